@@ -34,6 +34,10 @@ struct Case {
     /// run k happens with the whole world moved to another absolute location
     #[serde(default)]
     relocate: Vec<bool>,
+    /// the runs after the first regenerate over the files the previous run left (no
+    /// clean output directory in between)
+    #[serde(default)]
+    in_place: bool,
     flags: Vec<String>,
     // edit workload
     edit_kind: String,
@@ -156,7 +160,7 @@ fn apply_edit(r: &mut Rng, kind: &str, m: &Model, extras: &BTreeMap<String, Stri
 /// (module paths, imports), which the tool does not do, so moving such a type
 /// or renaming its file legitimately changes the winner.  Demanding layout
 /// invariance there would ask for more than C13 states.
-fn add_specials(r: &mut Rng, m: &mut Model, flags: &mut Vec<String>, allow_dup_type: bool) {
+pub fn add_specials(r: &mut Rng, m: &mut Model, flags: &mut Vec<String>, allow_dup_type: bool) {
     if m.files.len() >= 2 && r.chance(1, 8) {
         // same event from two files (same payload kind)
         let ev: Option<Emit> = m.events().first().map(|(_, e)| (*e).clone());
@@ -225,6 +229,11 @@ fn add_specials(r: &mut Rng, m: &mut Model, flags: &mut Vec<String>, allow_dup_t
 }
 
 fn forced_run(env: &mut Env, w: &World, setup: &Setup, cfg: &Cfg, p: ProcSpec, verbose: bool, viz: bool) -> Result<Files, String> {
+    forced_run_opt(env, w, setup, cfg, p, verbose, viz, true)
+}
+
+#[allow(clippy::too_many_arguments)]
+fn forced_run_opt(env: &mut Env, w: &World, setup: &Setup, cfg: &Cfg, p: ProcSpec, verbose: bool, viz: bool, clean_out: bool) -> Result<Files, String> {
     let mut c = cfg.clone();
     c.visualize = viz;
     c.flag_visualize = c.flag_visualize && viz;
@@ -235,7 +244,9 @@ fn forced_run(env: &mut Env, w: &World, setup: &Setup, cfg: &Cfg, p: ProcSpec, v
     }
     w.write_config(setup, &c);
     let out = w.out_dir(setup);
-    let _ = std::fs::remove_dir_all(&out);
+    if clean_out {
+        let _ = std::fs::remove_dir_all(&out);
+    }
     let r = scen::run_tool(env, w, setup, &c, p, flag, verbose);
     if !r.res.status.is_ok() {
         return Err(r.res.status.short());
@@ -383,6 +394,7 @@ impl Check for C13 {
             verbose,
             viz,
             relocate,
+            in_place: !edit_case && !viz_mixed && i % 4 == 2,
             flags,
             edit_kind,
             real_bin,
@@ -420,7 +432,7 @@ impl Check for C13 {
                 } else {
                     w.clone()
                 };
-                let res = forced_run(env, &w_run, &c.setup, &c.cfg, c.procs[k].clone(), c.verbose[k], c.viz[k]);
+                let res = forced_run_opt(env, &w_run, &c.setup, &c.cfg, c.procs[k].clone(), c.verbose[k], c.viz[k], !(c.in_place && k > 0));
                 if moved {
                     std::fs::rename(&w_run.root, &w.root).expect("move world back");
                 }
